@@ -875,3 +875,45 @@ def supernode_sweep_rule(chk, cid, prog, p, cfgname):
         from ..run import AnalysisBroken
         raise AnalysisBroken('sp_%strsv: %d supernode sweeps found, expected at least 4' % (p, n))
     return n
+
+
+def constant_names_rule(chk, cid, prog, cfgname, units=None):
+    """Locals named zero / one / comp_zero / comp_one (and none) stand for constants: some statement relies on the value their initialiser gave them
+    (x = comp_zero; z_eq(&beta, &comp_zero)).  A routine that also writes such a variable (the complex macros take an output operand:
+    zz_mult(&comp_zero, a, b)) silently changes what the later uses mean.  For every such local: if it is ever written after its declaration, no
+    statement may use it as a value (plain read that is not the operand of the macro sequence that just wrote it)."""
+    names = {'zero', 'one', 'comp_zero', 'comp_one', 'none'}
+    n = 0
+    for f in prog.all_funcs():
+        if f.unit.startswith('CBLAS/') or (units is not None and f.unit not in units):
+            continue
+        cands = {vid: v for vid, v in f.locals.items() if v.a.get('name') in names}
+        if not cands:
+            continue
+        for vid, v in cands.items():
+            writes = []
+            for x in f.body.walk():
+                if x.k == 'Assign':
+                    r = root_ref(x.c[0])
+                    if r is not None and r.a.get('id') == vid:
+                        writes.append(x)
+            if not writes:
+                n += 1
+                chk.ok(cid, '%s:%s:%s-is-constant' % (f.unit, f.name, v.a['name']), nontrivial=False)
+                continue
+            # it is written: then it must not also be used where its initial value is meant - a whole-object read (copied or compared as a constant)
+            n += 1
+            chk.saw(unit=f.unit, func=f.unit + ':' + f.name)
+            wl = min(w.line for w in writes)
+            whole = []
+            for x in f.body.walk():
+                if x.k == 'Assign' and x.a['op'] == '=' and strip(x.c[1]).k == 'Ref' and strip(x.c[1]).a.get('id') == vid:
+                    whole.append(x)       # y = comp_zero
+            inst = '%s:%s:%s-not-both-scratch-and-constant' % (f.unit, f.name, v.a['name'])
+            if not whole:
+                chk.ok(cid, inst, sample='written %d time(s), never copied as a constant' % len(writes))
+            else:
+                chk.violate(cid, inst, loc(f, whole[0]), f.name,
+                            '`%s` copies `%s` as a constant, but the routine also writes that variable (first at line %d, e.g. as the output operand of a complex '
+                            'multiply): after that it no longer holds its initial value' % (pretty(whole[0])[:40], v.a['name'], wl), cfgname=cfgname)
+    return n
